@@ -247,6 +247,13 @@ def execute(plan):
                     if kind != "mmse" and abs(pw - m["P"][k]) > 1e-8 * m["P"][k]:
                         viol("power", step, "|full_F[%d]|^2 = %.9g but the current power is %.9g (after %s)" % (k, pw, m["P"][k], after), rel="not_met")
                         return
+                if not (kind == "mmse" and m.get("F_from_solve")) and np.shape(fF[k]) == np.shape(F[k]):
+                    # "unit-norm precoders whose power-scaled versions ...": full_F[k] is THE power-scaled version of F[k]
+                    dev = float(np.max(np.abs(np.asarray(fF[k]) - np.sqrt(m["P"][k]) * np.asarray(F[k]))))
+                    if dev > 1e-8 * np.sqrt(m["P"][k]) + 1e-15:
+                        viol("power", step, "full_F[%d] is not sqrt(P[%d]) * F[%d] (max deviation %.3g) after %s: the scaled precoder belongs to other precoders" % (
+                            k, k, k, dev, after), rel="scaled_version")
+                        return
                 if ns is None or int(ns[k]) != F[k].shape[1]:
                     viol("shapes", step, "Ns[%d]=%s but F[%d] has %d columns" % (k, None if ns is None else ns[k], k, F[k].shape[1]), rel="Ns")
                     return
@@ -411,6 +418,14 @@ def execute(plan):
                         kw["F"] = wrap_(Fs)
                     if op["how"] in ("full_F", "both"):
                         kw["full_F"] = wrap_(full)
+                    if op["how"] == "F" and op["seed"] % 4 == 3 and getattr(solver, "_F", None) is not None and isinstance(solver.F, np.ndarray) \
+                            and solver.F.dtype == object and len(solver.F) == K:
+                        # the caller edits the array the solver handed out (solver.F) element by element and hands the SAME array back
+                        arr_same = solver.F
+                        for k_ in range(K):
+                            arr_same[k_] = Fs[k_]
+                        kw["F"] = arr_same
+                        bump(res["probes"], "solver_F_edited_in_place_and_handed_back")
                     if newP is not None:
                         # the power in the form the plan has it (scalar, list) half of the time, as an array otherwise
                         kw["P"] = (list(newP) if isinstance(newP, list) else newP) if op["seed"] % 2 == 0 else np.array(m["P"])
